@@ -43,9 +43,14 @@ fn panic_hook(info: &std::panic::PanicHookInfo<'_>) {
     let in_mmtk = !in_harness;
     let head: String = msg.chars().take(300).collect();
     if in_mmtk {
+        // class names are independent of where the mmtk-core tree lives
+        let rel = match loc.rfind("/src/") {
+            Some(i) => &loc[i + 1..],
+            None => &loc[..],
+        };
         violation(
             "",
-            &format!("panic:{}", loc),
+            &format!("panic:{}", rel),
             format!("thread {} panicked at {}: {}", thread, loc, head),
         );
     } else {
@@ -174,7 +179,9 @@ pub fn run(spec: RunSpec) -> ! {
         b.set_vm_layout(VMLayout {
             log_address_space: 35,
             heap_start: unsafe { Address::from_usize(0x4000_0000) },
-            heap_end: unsafe { Address::from_usize(0x2_0000_0000) },
+            heap_end: unsafe {
+                Address::from_usize(if cfg.layout32_chunks > 0 { 0x4000_0000 + (cfg.layout32_chunks << 22) } else { 0x2_0000_0000 })
+            },
             log_space_extent: 31,
             force_use_contiguous_spaces: false,
         });
